@@ -34,6 +34,10 @@ def gen_cases(seed, tier):
     cases = []
     for s in docgen.exhaustive(MATH_SYMS, L):
         cases.append(PC.mk_case('default', s, False, 'exhaustive-math'))
+    # dollar runs: $a$$b$ (two inline) vs $$a$$ (one display) need 6 symbols
+    for s in docgen.exhaustive(['$', 'a'], 8 if quick else 10):
+        if len(s) > L:
+            cases.append(PC.mk_case('default', s, False, 'exhaustive-dollars'))
     extra = ['\\text', '\\ensuremath', '\\mbox', '\\begin{equation}', '\\end{equation}', '\\begin{align*}', '\\end{align*}',
              '\\frac', '$$', '\\textbf']
     for _ in range(1500 if quick else 20000):
